@@ -140,6 +140,24 @@ def fill(det, init, rows, cols):
                                                             coords={"k": list(range(n))}))
 
 
+def _trees(P, det, back):
+    """nested view of the two trees of a detector (walked through `.children`), the keys the implementation's to_dict
+    wrote for them, and the nested view of what came back (None: nothing came back)."""
+    out = {}
+    try:
+        dd = det.to_dict()["data"]
+    except Exception:  # noqa: BLE001
+        return out
+    for name, tree, btree in (("data", det._data, getattr(back, "_data", None)),
+                              ("scene", det._scene.data if det._scene is not None else None,
+                               back._scene.data if back is not None and back._scene is not None else None)):
+        if tree is None or dd.get(name) is None:
+            continue
+        out[name] = {"orig": P.c_nested(tree), "keys": [P._asc(k) for k in dd[name]],
+                     "back": None if btree is None else P.c_nested(btree)}
+    return out
+
+
 def _exc(ex, stage=None):
     out = {"raise": type(ex).__name__, "msg": str(ex)[:200]}
     if stage:
@@ -181,9 +199,12 @@ def handle(p):
             stage = "load"
             back = Detector.from_dict(dct)
             out["back"] = P.canon_detector(back)
+            out["trees"] = _trees(P, det, back)
         except Exception as ex:  # noqa: BLE001
             out.setdefault("orig", P.canon_detector(det))
             out["back"] = _exc(ex, stage)
+            if stage == "load":
+                out["trees"] = _trees(P, det, None)
         return out
     if route == "asdf":
         fn = _fname()
@@ -195,9 +216,12 @@ def handle(p):
             stage = "load"
             back = getattr(Detector, loader)(fn) if loader != "class_load" else type(det).load(fn)
             out["back"] = P.canon_detector(back)
+            out["trees"] = _trees(P, det, back)
         except Exception as ex:  # noqa: BLE001
             out.setdefault("orig", P.canon_detector(det))
             out["back"] = _exc(ex, stage)
+            if stage == "load":
+                out["trees"] = _trees(P, det, None)
         finally:
             if os.path.exists(fn):
                 os.unlink(fn)
